@@ -612,9 +612,10 @@ const (
 	UDLen
 	UOptTag
 	UShow
+	UAtt
 )
 
-var useNames = [...]string{"UTag", "UCall", "UUuid", "ULen", "UDLen", "UOptTag", "UShow"}
+var useNames = [...]string{"UTag", "UCall", "UUuid", "ULen", "UDLen", "UOptTag", "UShow", "UAtt"}
 
 const (
 	CXfer = iota
@@ -922,6 +923,8 @@ func (st *State) Step(c Cmd) Rerr {
 			st.Logs = append(st.Logs, LogEnt{Kind: 0, Z: int64(len(p.DictKeys()))})
 		case UShow:
 			st.Logs = append(st.Logs, LogEnt{Kind: 2, Tree: p.Clone()})
+		case UAtt:
+			st.Logs = append(st.Logs, LogEnt{Kind: 0, Z: 7})
 		}
 		return ENone
 	case CShowVar:
